@@ -9,26 +9,59 @@ def cfgOf (l : Line) : _root_.C05.Cfg :=
     post := bool l "post", pkjwt := bool l "pkjwt", refresh := bool l "refresh",
     capCC := bool l "cap.cc", capTE := bool l "cap.te", capDevice := bool l "cap.device" }
 
+/-- ordered pairs `<p>0.k`/`<p>0.v` … of a `url.Values` -/
+def valuesOf (l : Line) (p : String) : EPValues :=
+  { kv := (List.range (nat l (p ++ "n"))).map fun i => (str l (p ++ toString i ++ ".k"), str l (p ++ toString i ++ ".v")) }
+
+/-- the abstract request of the line -/
+def requestOf (l : Line) : EPRequest :=
+  { basic := if bool l "basic" then some (str l "b.user", str l "b.pass") else none,
+    Form := valuesOf l "f.", PostForm := valuesOf l "pf.", parseErr := bool l "parse.err" }
+
+/-- the answers the libraries gave for THIS request: url.QueryUnescape of the two Basic components, the parsers on the one assertion -/
+def oraclesOf (l : Line) : EPOracles :=
+  let u := str l "b.user"
+  let p := str l "b.pass"
+  let ur : Go.R String := if bool l "b.user.ok" then .ok (str l "b.user.un") else .error "invalid URL escape"
+  let pr : Go.R String := if bool l "b.pass.ok" then .ok (str l "b.pass.un") else .error "invalid URL escape"
+  let hasB := bool l "basic"
+  let tokStr := str l "tok.str"
+  let tok := parseToken l
+  let junk : Token := { segs := 1, middle := none, jws := none }
+  { unescape := fun s => if hasB && s == u then ur else if hasB && s == p then pr else .ok s,
+    tokenOf := fun s => if has l "tok.str" && s == tokStr then tok else junk }
+
 def endpointOf (l : Line) : _root_.C05.Endpoint :=
   match str l "endpoint" with
   | "introspect" => .introspect
   | "revoke" => .revoke
   | "device_authorization" => .deviceAuthorization
-  | _ => .token (str l "grant")
+  | _ => .token (_root_.C05.grantOf (requestOf l))
+
+def obsOf (l : Line) : _root_.C05.Obs :=
+  { status := nat l "o.status", success := bool l "o.success", errorDoc := bool l "o.errdoc", actor := str l "o.actor" }
 
 def monitorLine (l : Line) : Option String :=
   if str l "obs" == "panic" then some "panic" else
   let c := cfgOf l
-  let p : _root_.C04.Presented :=
-    { clientID := str l "cid", secret := str l "secret", assertion := if str l "auth" == "assertion" then some (parseToken l) else none }
-  let o : _root_.C05.Obs := { status := nat l "o.status", success := bool l "o.success", errorDoc := bool l "o.errdoc" }
+  let k := _root_.C05.credsOf (oraclesOf l) (requestOf l)
   if bool l "o.orphan" then some "tokens-created-on-refused-request" else
-  let v0 := _root_.C05.judge c (int l "now0") (endpointOf l) p (str l "auth" == "post") o
-  let v1 := _root_.C05.judge c (int l "now1") (endpointOf l) p (str l "auth" == "post") o
+  let v0 := _root_.C05.judge c (int l "now0") (endpointOf l) k (obsOf l)
+  let v1 := _root_.C05.judge c (int l "now1") (endpointOf l) k (obsOf l)
   if v0.isSome && v1.isSome then v0 else none
 
+def shortGrant (g : String) : String := if g == "" then "none" else g.replace "urn:ietf:params:oauth:grant-type:" ""
+
+def obsString (l : Line) : String :=
+  if str l "obs" == "panic" then "panic"
+  else if bool l "o.success" then "success:" ++ str l "o.actor"
+  else "refused:" ++ toString (nat l "o.status") ++ ":" ++ str l "o.err"
+
+def classOf (l : Line) : String :=
+  let g := match endpointOf l with | .token g => ":" ++ shortGrant g | _ => ""
+  s!"{str l "router"}:{str l "endpoint"}{g}:{str l "pres"}:{if bool l "o.success" then "success" else "refused:" ++ str l "o.err"}"
+
 def step (l : Line) : String :=
-  let cls := s!"{str l "endpoint"}:{(str l "grant").replace "urn:ietf:params:oauth:grant-type:" ""}:{if bool l "o.success" then "success" else "refused:" ++ str l "o.err"}"
-  s!"case={str l "case"} class={cls} model=- observed={if bool l "o.success" then "success" else "refused:" ++ str l "o.err"} monitor={showMon (monitorLine l)} agree=1"
+  s!"case={str l "case"} class={classOf l} model=- observed={obsString l} monitor={showMon (monitorLine l)} agree=1"
 
 end Drv.C05
